@@ -233,7 +233,7 @@ def run_case(rec, case):
         case_generate_info(rec, case)
 
 
-def run_shard(rec, shard, nshards):
+def _run_shard_workload(rec, shard, nshards):
     common.loop(rec, shard, nshards, N[rec.tier], CAP[rec.tier], lambda n: run_case(rec, make_case(rec.seed, n)))
 
 
@@ -285,3 +285,14 @@ def canaries(rec):
     out.append(("missing tag 96", "info-not-tag-96" in artifacts(tag96=False)))
     shutil.rmtree(os.path.join(wd, "can"), ignore_errors=True)
     return out
+
+
+FAULT_PLANE_OPS = ('encrypt',)
+
+
+def run_shard(rec, shard, nshards):
+    _run_shard_workload(rec, shard, nshards)
+    if shard == 5 % nshards:
+        # complete enumeration of the single file-boundary faults of this property's operations (faultplane.py)
+        from . import faultplane
+        faultplane.run(rec, ID, FAULT_PLANE_OPS)
